@@ -151,7 +151,7 @@ fn run_case(w: &[&str], n: u64, ga: &Guarded, gb: &Guarded) -> String {
     let op = w[0];
     const UNARY: &[&str] = &[
         "ustr_bytes", "ustr_str", "ustring_bytes", "ustring_vec", "ustring_str", "ustring_string",
-        "ustring_fromstr", "const", "lit", "format", "dname", "parent", "file_name", "own",
+        "ustring_fromstr", "ustring_vec_cap", "ustring_string_cap", "const", "lit", "format", "dname", "parent", "file_name", "own",
     ];
     const BINARY: &[&str] = &["join", "join_fmt", "find", "find_buf", "ends_with", "match", "match_str", "find_alias", "ends_with_alias", "match_alias"];
     if !(b.is_none() && UNARY.contains(&op) || b.is_some() && BINARY.contains(&op)) {
@@ -168,6 +168,26 @@ fn run_case(w: &[&str], n: u64, ga: &Guarded, gb: &Guarded) -> String {
         }
         ("ustring_bytes", None) => return res_owned(UnixString::try_from_bytes(a)),
         ("ustring_vec", None) => return res_owned(UnixString::try_from_vec(a.to_vec())),
+        // the same owning entry points handed a buffer with spare capacity (holding non-zero garbage) behind the payload
+        ("ustring_vec_cap", None) => {
+            let mut v = a.to_vec();
+            let n = v.len();
+            v.extend_from_slice(&[0xAA; 24]);
+            v.truncate(n);
+            return res_owned(UnixString::try_from_vec(v));
+        }
+        ("ustring_string_cap", None) => {
+            return match ascii(a) {
+                Some(s) => {
+                    let mut o = String::with_capacity(s.len() + 17);
+                    o.push_str(s);
+                    o.push_str("garbage-behind-it");
+                    o.truncate(s.len());
+                    res_owned(UnixString::try_from_string(o))
+                }
+                None => "bad-op".to_string(),
+            }
+        }
         ("ustring_str", None) => {
             return match ascii(a) {
                 Some(s) => res_owned(UnixString::try_from_str(s)),
